@@ -396,6 +396,27 @@ def rule_build_strict(col, facts):
 ENTRY_TRAITS = ("::FromLexicalWithOptions", "::ToLexicalWithOptions")
 
 
+def buffer_checked(conds):
+    """A dominating `assert!(check_buffer(..))`, or the same test written in place:
+    `buffer_size_const(..) <= bytes.len()` / `bytes.len() >= buffer_size_const(..)` found true."""
+    for _d, e, pol in conds:
+        if is_call(e, "::check_buffer") and pol is True:
+            return True
+        e = strip_casts(e)
+        if e[0] == "bin" and e[1] in ("Ge", "Le", "Gt", "Lt") and isinstance(pol, bool):
+            l, r, op = strip_casts(e[2]), strip_casts(e[3]), e[1]
+            if not pol:
+                op = {"Ge": "Lt", "Lt": "Ge", "Le": "Gt", "Gt": "Le"}[op]
+            if op in ("Le", "Lt"):
+                l, r, op = r, l, {"Le": "Ge", "Lt": "Gt"}[op]
+            # now: l >= r  or  l > r ; want l = len(bytes), r = buffer_size_const(..)
+            ln = l[0] == "call" and l[1].endswith("::len") or "PtrMetadata" in show(l)
+            sz = any(x[1].endswith("buffer_size_const") for x in expr_calls(r))
+            if ln and sz:
+                return True
+    return False
+
+
 def rule_entry_validation(col, facts):
     """MPT-validate: at every *_with_options entry point the back-end call is dominated by the
     `true` edge of NumberFormat::<FORMAT>::is_valid() (or an assert! of it), and for float parsers
@@ -446,7 +467,7 @@ def rule_entry_validation(col, facts):
                       any(is_call(e, "NumberFormat::is_valid") and pol is True for _d, e, pol in conds),
                       "back-end reached without assert!(format.is_valid())", wf.loc(wf.blocks[bb]["ts"]))
             col.check(R, "write_float->%s#check_buffer" % cn.replace("lexical_write_float::", ""),
-                      any(is_call(e, "::check_buffer") and pol is True for _d, e, pol in conds),
+                      buffer_checked(conds),
                       "back-end reached without assert!(check_buffer(..))", wf.loc(wf.blocks[bb]["ts"]))
     col.floor(R, "write_float back-ends", m, 3)
     for i, b in enumerate(wf.blocks):
@@ -456,5 +477,5 @@ def rule_entry_validation(col, facts):
             if st[0] == "=" and st[1][1] and any(isinstance(p, (list, tuple)) and p[0] == "idx" for p in st[1][1]):
                 conds = path_conditions(wf, i)
                 col.check(R, "write_float-store@%s" % last_seg(wf.loc(st[3])).split(":")[0],
-                          any(is_call(e, "::check_buffer") and pol is True for _d, e, pol in conds),
+                          buffer_checked(conds),
                           "byte store before assert!(check_buffer(..))", wf.loc(st[3]))
